@@ -45,6 +45,7 @@ Theorem use_after_put_is_observable :
   run (fun i h => if Nat.eqb i 3 then Some [Byte.xdd] else None) 0 [] (fun _ => []) [Get 0; Append 0 data; Put 0; Out 0]
   <> run quiet 0 [] (fun _ => []) [Get 0; Append 0 data; Put 0; Out 0].
 Proof. split; [exact use_after_put_not_disciplined | exact use_after_put_interferes]. Qed.
+Print Assumptions use_after_put_is_observable.
 
 (* the state shared between user goroutines and the request goroutine of one
    call (duplex_http_call.go) is only touched under errMu, through sync.Once, or
